@@ -59,6 +59,7 @@ pub proof fn lemma_parse_ranges_wf(range: Option<&HeaderValue>, len: u64, res: R
 }
 //@endlemma
 
+//@auto_helpers src/range.rs
 //@canary_false
 } // verus!
 fn main() {}
